@@ -9,7 +9,7 @@ from dvc_data.hashfile.tree import Tree
 
 from vf.hlib import B, HarnessGap, NoTracing, cube, journal, pick, violation
 
-KEYS = [("b",), ("a", "z"), ("a",  "b", "c"), ("é x",)]
+KEYS = [("b",), ("B",), ("a", "b", "c"), ("é x",)]  # two keys differing only by case, a nested and a non-ASCII one
 N = int(cube("n", 3))
 PERMS = list(itertools.permutations(range(N)))
 POOL = ["11111111111111111111111111111111", "22222222222222222222222222222222", "d41d8cd98f00b204e9800998ecf8427e"]
